@@ -479,6 +479,18 @@ func (fr *Frame) binop(n *vnode, i *ssa.BinOp, av, bv *Val) *Term {
 	if a.S.K == KInt && (op == token.SHL || op == token.SHR) {
 		return fr.shiftInt(n, i, a, b)
 	}
+	if x.wrapSigned && a.S.K == KInt && b.S.K == KInt && bx != nil && isSigned(bx) {
+		// exact two's-complement semantics through a bit-vector detour (contract option wrap-signed)
+		w := intWidth(bx)
+		switch op {
+		case token.ADD:
+			return signedOfBV(BVBin("bvadd", Int2BV(a, w), Int2BV(b, w)))
+		case token.SUB:
+			return signedOfBV(BVBin("bvsub", Int2BV(a, w), Int2BV(b, w)))
+		case token.MUL:
+			return signedOfBV(BVBin("bvmul", Int2BV(a, w), Int2BV(b, w)))
+		}
+	}
 	if a.S.K == KInt && b.S.K == KInt {
 		switch op {
 		case token.LSS:
@@ -574,7 +586,22 @@ func (fr *Frame) binop(n *vnode, i *ssa.BinOp, av, bv *Val) *Term {
 		}
 		switch op {
 		case token.ADD:
-			return BVBin("bvadd", a, b)
+			r := BVBin("bvadd", a, b)
+			if b.IsBVLit() && !a.IsBVLit() && a.S.W >= 32 && b.Val.BitLen() <= 16 {
+				// hint linking the unsigned value of x+c to that of x (the solvers are weak on bv2nat)
+				w := a.S.W
+				full := IntBig(new(big.Int).Lsh(big.NewInt(1), uint(w)))
+				sum := Add(App("bv2nat", SInt, a), IntBig(b.Val))
+				rv := x.nameBig(r, "bvsum")
+				if rv == r && r.Op != "var" {
+					nv := x.eng.FreshVar("bvsum", r.S)
+					x.vc.Assume(App("=", SBool, nv, r))
+					rv = nv
+				}
+				x.vc.Assume(Eq(App("bv2nat", SInt, rv), Ite(Lt(sum, full), sum, Sub(sum, full))))
+				return rv
+			}
+			return r
 		case token.SUB:
 			return BVBin("bvsub", a, b)
 		case token.MUL:
@@ -700,6 +727,10 @@ func (fr *Frame) shiftInt(n *vnode, i *ssa.BinOp, a, b *Term) *Term {
 		x.vc.Oblige("safety.shift", "", n.reach, Ge(cnt, IntLit(0)), x.pos(i.Pos()), "negative shift amount")
 		x.vc.Assume(Implies(n.reach, Ge(cnt, IntLit(0))))
 	}
+	if x.wrapSigned && i.Op == token.SHL {
+		av := Int2BV(a, w)
+		return signedOfBV(ShiftByInt("bvshl", av, cnt))
+	}
 	if cnt.IsIntLit() {
 		k := cnt.Val.Int64()
 		if k >= int64(w) {
@@ -747,8 +778,12 @@ func (fr *Frame) unop(n *vnode, i *ssa.UnOp) *Val {
 	case token.SUB:
 		a := fr.term(i.X, n)
 		if a.S.K == KInt {
+			// exact: -MinInt wraps to MinInt
 			r := Neg(a)
-			fr.overflow(n, r, i.Type(), i.Pos(), "negation")
+			if b := basicOf(i.Type()); b != nil && isSigned(b) {
+				lo, _ := typeRange(b)
+				r = Ite(Eq(a, IntBig(lo)), IntBig(lo), Neg(a))
+			}
 			return &Val{T: r, Ty: i.Type()}
 		}
 		if a.S.K == KBV {
